@@ -70,9 +70,16 @@ def parseDec (s : String) : Option Rat :=
       let v := if 0 ≤ e10 then mant * ((10 ^ e10.toNat : Nat) : Rat) else mant / ((10 ^ (-e10).toNat : Nat) : Rat)
       some (if neg then -v else v)
 
-instance : NumTok String where
-  render := id
-  parse := fun s => if (parseDec s).isSome then some (strip s) else none
+instance : Tok String String where
+  ofStr := id
+  ofNum := id
+  ofNat := toString
+  text := id
+  num? := fun s => if (parseDec s).isSome then some (strip s) else none
+  int? := String.toInt?
+  isYes := fun s => s.toLower == "yes"
+
+instance : NumVal String where
   zero := "0"
   toRat := fun s => (parseDec s).getD 0
 
@@ -230,14 +237,14 @@ def handle (toks : List String) : String :=
   | "to_idf" :: rest =>
     match dd? rest with
     | some (d, []) =>
-      match toIdf d with
+      match toIdf String d with
       | some s => "ok " ++ encStr s
       | none => "err:index"
     | _ => "bad-op"
   | ["from_idf", text] =>
     match str? text with
     | some s =>
-      match (fromIdf s : Except DD.Err (DesignDay String)) with
+      match (fromIdf String s : Except DD.Err (DesignDay String)) with
       | .ok d => "ok " ++ showDD d
       | .error e => showErr e
     | none => "bad-op"
@@ -251,12 +258,12 @@ def handle (toks : List String) : String :=
     | _ => "bad-op"
   | "loc_to_idf" :: rest =>
     match loc? rest with
-    | some (l, []) => "ok " ++ encStr (locToIdf l)
+    | some (l, []) => "ok " ++ encStr (locToIdf String l)
     | _ => "bad-op"
   | ["loc_from_idf", text] =>
     match str? text with
     | some s =>
-      match (locFromIdf s : Except DD.Err (Loc String)) with
+      match (locFromIdf String s : Except DD.Err (Loc String)) with
       | .ok l => "ok " ++ showLoc l
       | .error e => showErr e
     | none => "bad-op"
@@ -265,7 +272,7 @@ def handle (toks : List String) : String :=
     | some n, some (l, rest) =>
       match dds? n rest with
       | some ds =>
-        match ddyToString (⟨l, ds⟩ : DDY String) with
+        match ddyToString String (⟨l, ds⟩ : DDY String) with
         | some s => "ok " ++ encStr s
         | none => "err:index"
       | none => "bad-op"
@@ -273,7 +280,7 @@ def handle (toks : List String) : String :=
   | ["ddy_from_string", text] =>
     match str? text with
     | some s =>
-      match (ddyFromString s : Except DD.Err (DDY String)) with
+      match (ddyFromString String s : Except DD.Err (DDY String)) with
       | .ok y => "ok " ++ toString y.days.length ++ " " ++ showLoc y.loc ++ " " ++ joinSp (y.days.map showDD)
       | .error e => showErr e
     | none => "bad-op"
